@@ -256,7 +256,7 @@ _WORLDS = []
 class World:
     """One interpreter with the whole-program model switched on."""
 
-    def __init__(self, repo, lib=None, mpi_size=1, max_steps=3_000_000_000, extra=None):
+    def __init__(self, repo, lib=None, mpi_size=1, max_steps=3_000_000_000, extra=None, round_digits=None):
         from .elems import ElemLib
         from .femodel import Model
 
@@ -272,6 +272,10 @@ class World:
         self.I.exact_float = True
         self.M.user_call_hook = self._hook
         self.solves = []  # (A, b) handed to a linear backend
+        # round_digits = n: the linear backend returns the exact solution ROUNDED to n decimal digits (a backend of finite
+        # accuracy).  For staggered / incremental scenarios only: the size of exact rationals otherwise squares at every
+        # step.  The statements decided with it are inequalities with a margin far above 10^-n.
+        self.round_digits = round_digits
         self.ET = repo.cls(ELEMTYPE)
         _WORLDS.append(self)
 
@@ -291,7 +295,7 @@ class World:
                 name = tag[len("import:scipy.sparse"):].lstrip(".")
                 if name in ("linalg.spsolve",):
                     self.solves.append((args[0], args[1]))
-                    return xsparse.spsolve(*args)
+                    return self._rounded(xsparse.spsolve(*args))
                 if name in ("linalg.cg", "linalg.bicg", "linalg.gmres", "linalg.lgmres", "linalg.bicgstab", "linalg.minres"):
                     # a Krylov backend that reports convergence (info = 0) returns the solution of the system it is handed
                     self.solves.append((args[0], args[1]))
@@ -304,6 +308,21 @@ class World:
 
                 return _ExactKDTree(args[0])
         return NotImplemented
+
+    def _rounded(self, x):
+        if self.round_digits is None or not isinstance(x, XArray):
+            return x
+        from fractions import Fraction
+
+        sc = 10 ** self.round_digits
+        out = []
+        for v in x.data:
+            if isinstance(v, Poly) and v.is_const():
+                v = v.const_value()
+            if isinstance(v, (int, Fraction)):
+                v = Fraction(round(Fraction(v) * sc), sc)
+            out.append(v)
+        return XArray(x.shape, out)
 
     # -- object protocol -----------------------------------------------------------------------------------------------
     def enum(self, cls_qualname, member):
